@@ -20,6 +20,7 @@ import (
 	"runtime/debug"
 	"strings"
 	"sync"
+	"unsafe"
 )
 
 // Config controls one run.
@@ -112,6 +113,7 @@ type sched struct {
 	enabled []*Task // scratch
 
 	pctChange U64Map[bool]
+	joinTok   int64
 	lastSite  string
 }
 
@@ -228,6 +230,7 @@ func (s *sched) taskMain(t *Task, f func(), first bool) {
 		t.done = true
 		t.parked = false
 		t.desc = "done"
+		raceRelease(unsafe.Pointer(&s.joinTok)) // see Join
 		raceDisable()
 		next := s.pickNext(nil)
 		if next == nil {
@@ -569,5 +572,19 @@ func (s *sched) event(t *Task, format string, args ...interface{}) {
 func Point(site string) {
 	if s := act; s != nil {
 		s.yield(nil, false, site)
+	}
+}
+
+// Join gives the calling task a happens-before edge from everything the tasks
+// that have already finished did — what a program gets from WaitGroup.Wait or
+// from receiving on a done channel.  Harness code that waited (with Block) for
+// worker tasks to finish and then touches objects they created calls this, so
+// that the race detector does not mistake the harness's own hand-over for a
+// race in the code under test.
+//
+//go:norace
+func Join() {
+	if s := act; s != nil {
+		raceAcquire(unsafe.Pointer(&s.joinTok))
 	}
 }
